@@ -861,7 +861,12 @@ class Interp(Engine):
 
     def ex_FunctionDef(self, s, fr):
         key = (fr.func.key if fr.func else "?") + ".<locals>." + s.name
-        fr.store(s.name, Func(s, fr, fr.globs, key))
+        f = Func(s, fr, fr.globs, key)
+        # a decorated NESTED def: the decorator expressions are evaluated and applied, innermost first, as CPython does; each needs a
+        # model (an unmodelled decorator is Unsupported, never silently dropped).  Module / class level defs keep the rules of extract.py.
+        for dec in reversed(s.decorator_list):
+            f = self.call(self.ev(dec, fr), [f], {})
+        fr.store(s.name, f)
 
     def ex_Nonlocal(self, s, fr):
         fr.nonlocals.update(s.names)
